@@ -11,7 +11,6 @@ use crate::verif_driver::{make_config, show};
 
 pub(crate) fn run(name: &str, bound: usize, shard: usize, nshards: usize) -> Value {
     match name {
-        #[cfg(openbangla_riti_verif_internal)]
         "reph" => reph::run(bound, shard, nshards),
         "split" => split::run(bound, shard, nshards),
         #[cfg(openbangla_riti_verif_internal)]
@@ -19,7 +18,7 @@ pub(crate) fn run(name: &str, bound: usize, shard: usize, nshards: usize) -> Val
         #[cfg(openbangla_riti_verif_internal)]
         "layout_values" => misc::layout_values(),
         #[cfg(not(openbangla_riti_verif_internal))]
-        "reph" | "backspace_step" | "layout_values" => json!({"check": name, "error": "needs the internal hooks, which do not compile against the current tree"}),
+        "backspace_step" | "layout_values" => json!({"check": name, "error": "needs the internal hooks, which do not compile against the current tree"}),
         "phonetic_api" => api::phonetic(bound, shard, nshards),
         "fixed_api" => api::fixed(bound, shard, nshards),
         "history_independence" => api::history_independence(bound),
@@ -88,11 +87,28 @@ impl Out {
 pub(crate) const INTERNAL: bool = cfg!(openbangla_riti_verif_internal);
 
 // ---------------------------------------------------------------------------------------------
-#[cfg(openbangla_riti_verif_internal)]
 mod reph {
     use super::*;
+    #[cfg(openbangla_riti_verif_internal)]
     use crate::fixed::method::FixedMethod;
     use crate::utility::Utility;
+
+    /// without the private hooks: the same strings typed with the keys of the synthetic layout (every helper off, old-style reph
+    /// on, single-string suggestions), the composed text read back, then the reph key; returns (text before, text after)
+    #[cfg(not(openbangla_riti_verif_internal))]
+    fn through_api(ctx: &RitiContext, s: &str) -> (String, String) {
+        let key_of = |c: char| -> char { match c { 'ক' => 't', 'র' => 'u', '\u{09CD}' => 'w', 'া' => 'p', 'ই' => 'v', '\u{0981}' => 'o', '\u{200D}' => '`', '\u{200C}' => '\\', '।' => 'x', _ => 'L' } };
+        ctx.finish_input_session();
+        let mut before = String::new();
+        for c in s.chars() {
+            let sg = ctx.get_suggestion_for_key(crate::verif_driver::keycode_of(key_of(c)), 0, 0);
+            before = if sg.is_empty() { String::new() } else { sg.get_lonely_suggestion().to_string() };
+        }
+        let sg = ctx.get_suggestion_for_key(crate::verif_driver::keycode_of('q'), 0, 0);
+        let after = if sg.is_empty() { String::new() } else { sg.get_lonely_suggestion().to_string() };
+        ctx.finish_input_session();
+        (before, after)
+    }
 
     const H: char = '\u{09CD}';
     const CH: char = '\u{0981}';
@@ -117,17 +133,26 @@ mod reph {
 
     pub(crate) fn run(bound: usize, shard: usize, nshards: usize) -> Value {
         let alpha = ['ক', 'র', H, 'া', 'ই', CH, '\u{200D}', '\u{200C}', '।', 'ং'];
-        let mut o = Out::new("reph", bound, "all strings of length <= bound over {ক, র, hasanta, া, ই, chandrabindu, ZWJ, ZWNJ, ।, ং}");
+        let mut o = Out::new("reph", bound, if INTERNAL { "all strings of length <= bound over {ক, র, hasanta, া, ই, chandrabindu, ZWJ, ZWNJ, ।, ং}" } else { "the composed texts of all key strings of length <= bound-1 over the synthetic-layout keys for {ক, র, hasanta, া, ই, chandrabindu, ZWJ, ZWNJ, ।, ং}, through the public API (the private hooks do not compile against this tree)" });
         let mut fails = Vec::new();
         let mut nontrivial = 0u64;
         let mut samples = Vec::new();
+        #[cfg(not(openbangla_riti_verif_internal))]
+        let bound = bound.saturating_sub(1).max(3);
+        #[cfg(not(openbangla_riti_verif_internal))]
+        let ctx = RitiContext::new_with_config(&make_config(&json!({"layout": crate::verif_driver::synthetic_layout(), "database_dir": crate::verif_driver::data_dir(),
+            "phonetic_suggestion": false, "include_english": false, "fixed_suggestion": false, "fixed_vowel": false, "fixed_chandra": false, "fixed_kar": false,
+            "fixed_old_reph": true, "fixed_numpad": false, "fixed_kar_order": false, "ansi": false, "smart_quote": false})));
         o.cases = for_all_strings(&alpha, bound, shard, nshards, |s| {
-            let p: Vec<char> = s.chars().collect();
+            #[cfg(openbangla_riti_verif_internal)]
             let r = std::panic::catch_unwind(|| {
                 let mut m = FixedMethod::verif_with_buffer(s);
                 m.verif_insert_old_style_reph();
-                m.verif_buffer().to_string()
+                (s.to_string(), m.verif_buffer().to_string())
             });
+            #[cfg(not(openbangla_riti_verif_internal))]
+            let r = std::panic::catch_unwind(std::panic::AssertUnwindSafe(|| through_api(&ctx, s)));
+            let (p, r): (Vec<char>, Result<String, ()>) = match r { Ok((b, a)) => (b.chars().collect(), Ok(a)), Err(_) => (s.chars().collect(), Err(())) };
             let exp_pos = reph_pos(&p);
             let mut exp: String = p[..exp_pos].iter().collect();
             exp.push('র'); exp.push(H);
@@ -603,8 +628,10 @@ mod api {
     pub(crate) fn fixed(bound: usize, shard: usize, nshards: usize) -> Value {
         let mut o = Out::new("fixed_api", bound, "key texts over the synthetic layout (words, wrapped words, fused keys) x {traditional kar, smart quote, English, ANSI}; per step C02, at the end C15/C16, then terminating events vs a fresh context (C06)");
         let data = crate::data::Data::new(&make_config(&fixed_cfg(json!({}))));
-        // keys of data/synthetic_layout.json: t=ক w=্ i=ত p=া o=ঁ e=ি d=ে c=ু u=র a=আ s=য v=ই x=। m=ো
-        let words = ["t", "tp", "api", "tc", "utc", "twi", "ap", "tpt", "\"tp\"", "(ap)", "tpx", "we", "dtp", "tcx", "apitpu", "'tcu'", "tw", "apiw", "tptw", "sw", "apsw"];
+        // keys of data/synthetic_layout.json: t=ক w=্ i=ত p=া o=ঁ e=ি d=ে c=ু u=র a=আ s=য v=ই x=। m=ো b=.
+        let words = ["t", "tp", "api", "tc", "utc", "twi", "ap", "tpt", "\"tp\"", "(ap)", "tpx", "we", "dtp", "tcx", "apitpu", "'tcu'", "tw", "apiw", "tptw", "sw", "apsw",
+                     // punctuation that is special in a regular expression INSIDE the word (b = full stop, ? + ( ^ from their own keys)
+                     "tbp", "tpbu", "t?p", "t+p", "t(p", "tp^u", "btp"];
         let mut idx = 0usize;
         for trad in [false, true] { for smart in [false, true] { for eng in [false, true] { for ansi in [false, true] {
             let cfgv = fixed_cfg(json!({"fixed_suggestion": true, "fixed_kar": trad, "smart_quote": smart, "include_english": eng, "ansi": ansi, "fixed_vowel": true}));
